@@ -105,3 +105,112 @@ Section E2E.
              zinner_contract outer_fuel nanv Σ0 y0 x0 cnt0 co Hx0 Hy0 Hmi HΣ Htol Hrun Hst).
   Qed.
 End E2E.
+
+(* ================================================================ non-vacuity *)
+(* a ZeroFPR run whose first iterate already meets the tolerance (L_0 > 0 given, L_0 >= L_max): Converged at k = 0 *)
+Section At0.
+  Variable psi_grad_full : list R -> R * list R * list R.
+  Variable psi_yhat : list R -> R * list R.
+  Variable grad_L : list R -> list R -> list R.
+  Variable grad_psi : list R -> list R.
+  Variables (lb ub : list (option R)) (l1 : list R).
+  Variable dir_apply : nat -> iterate (T:=R) -> proxit (T:=R) -> option (list R).
+  Variable has_initial : bool.
+  Variable stop_req : counters -> bool.
+  Variable time_up : counters -> bool.
+  Variable P : params (T:=R).
+  Variables (x_in y_in Σ errz_in : list R).
+  Variable ls_fuel : nat.
+  Variables (ψ0 ψh h ε : R) (g0 wm0 xh p yh gh : list R).
+  Hypothesis HL0 : 0 < p_L0 P.
+  Hypothesis HLmax : p_Lmax P <= p_L0 P.
+  Hypothesis Hcrit : p_crit P = ApproxKKT.
+  Hypothesis H1 : psi_grad_full x_in = (ψ0, g0, wm0).
+  Hypothesis H2 : eval_prox_grad_step lb ub l1 (p_Lgamma P / p_L0 P) x_in g0 = (xh, p, h).
+  Hypothesis H3 : psi_yhat xh = (ψh, yh).
+  Hypothesis H4 : grad_L xh yh = gh.
+  Hypothesis H5 : vnorminf (kkt_residual (p_Lgamma P / p_L0 P) p g0 gh) = ε.
+  Hypothesis H6 : ε <= eff_tol (o_tol P).
+
+  Lemma zerofpr_converged_at_0 fuel :
+    exists o, zerofpr psi_grad_full psi_yhat grad_L grad_psi lb ub l1 dir_apply has_initial stop_req time_up P x_in y_in Σ errz_in ls_fuel (S fuel) = Done o /\
+      out_status o = StConverged /\ out_iterations o = 0%nat /\ out_eps o = ε /\ out_x o = xh /\ out_y o = yh /\
+      out_errz o = match errz_in with [] => [] | _ => vdiv (vsub yh y_in) Σ end.
+  Proof.
+    unfold zerofpr, init_L, psi_grad. cbv zeta. rewrite H1. cbn [fst snd].
+    change (@nleb R NumR) with Rle_bool. change (@n0 R NumR) with 0.
+    destruct (Rle_bool_spec (p_L0 P) 0) as [Hc|_]; [lra|].
+    cbn [iL nfinite NumR negb]. change (@ndiv R NumR) with Rdiv.
+    unfold eval_prox, set_gamma_L. cbn [ix ixh igrad ip iyh ipsi ipsih igam iL ipp igp ih ihave igradh]. rewrite H2. cbn [fst snd].
+    unfold eval_cost. cbn [ix ixh igrad ip iyh ipsi ipsih igam iL ipp igp ih ihave igradh]. rewrite H3. cbn [fst snd].
+    assert (Hq : forall i c s, iL i = p_L0 P -> ZeroFpr.init_qub psi_yhat lb ub l1 P ls_fuel i c s = Some (i, c, s)).
+    { intros i c s Hi. destruct ls_fuel; cbn [ZeroFpr.init_qub]; rewrite Hi; change (@nltb R NumR) with Rlt_bool;
+        (destruct (Rlt_bool_spec (p_L0 P) (p_Lmax P)) as [Hc|_]; [lra|reflexivity]). }
+    rewrite Hq by reflexivity.
+    cbn [loop]. unfold pass. cbv zeta. cbn [st_curr st_k st_np st_cnt st_stats st_log].
+    unfold zit_eps, eval_prox_it, prox_step_in_prox. cbn [px_grad ix ixh igrad ip iyh ipsi ipsih igam iL ipp igp ih ihave igradh].
+    rewrite Hcrit. cbn [crit_eps]. rewrite H4, H5.
+    rewrite tolerance_wins by (apply Rle_bool_iff; exact H6).
+    unfold exit_block. cbn [overwrites ixh iyh].
+    eexists. split; [reflexivity|]. cbn [out_status out_iterations out_eps out_x out_y out_errz]. repeat split.
+  Qed.
+End At0.
+
+(* ---- the concrete instance of AlmPanocProofs (n = 1, m = 1: minimise x s.t. x in [0,1], g(x) = x <= 0, x0 = 0, y0 = 0) with ZeroFPR *)
+Definition nv_zdir : nat -> iterate (T:=R) -> proxit (T:=R) -> option (list R) := fun _ _ _ => None.
+Definition nv_zrun :=
+  alm_zerofpr nvPb nvprov (fun _ => []) [Some 0] [Some 1] [] 0 nv_zdir false nv_never nv_never (fun _ => false) nvPP nvAP 5 5 3 0 None [0] [0].
+
+Lemma nv_zinner : exists lg w',
+  zinner nvPb nvprov (fun _ => []) [Some 0] [Some 1] [] nv_zdir false nv_never nv_never (fun _ => false) nvPP 5 5 cnt0 0 [0] [0] [1] 1 [0]
+  = Some ({| ir_status := Converged; ir_eps := 0; ir_err := Some [0]; ir_y := Some [0]; ir_iters := 0; ir_oot := false |}, [0], lg, w').
+Proof.
+  unfold zinner.
+  set (pgf := o_psi_grad_full nvPb nvprov (fun _ => []) [0] [1]).
+  destruct (pgf [0]) as [[ψ0 g0] wm0] eqn:H1.
+  assert (Hg0 : g0 = [1 + 0]).
+  { pose proof (opgf_grad nvPb nvprov (fun _ => []) nv_provider_ok nv_empty_ok [0] [1] [0]) as Hg. fold pgf in Hg.
+    unfold psi_grad in Hg. rewrite H1 in Hg. cbn [fst snd] in Hg. rewrite Hg. unfold grad_psi_def. rewrite nv_yhat. reflexivity. }
+  subst g0.
+  assert (H2 : eval_prox_grad_step [Some 0] [Some 1] [] (p_Lgamma (with_opts nvPP 1) / p_L0 (with_opts nvPP 1)) [0] [1 + 0] = ([0], [0], 0)).
+  { rcomp. f_equal. f_equal; f_equal; lra. }
+  assert (H3 : o_psi_yhat nvPb nvprov [0] [1] [0] = (psi_def nvPb [0] [0] [1], [0])).
+  { rewrite (opy_val nvPb nvprov nv_provider_ok). now rewrite nv_yhat. }
+  assert (H4 : o_grad_L nvPb nvprov [0] [0] = [1 + 0]).
+  { rewrite (ogL_val nvPb nvprov nv_provider_ok nv_empty_ok). reflexivity. }
+  assert (H5 : vnorminf (kkt_residual (p_Lgamma (with_opts nvPP 1) / p_L0 (with_opts nvPP 1)) [0] [1 + 0] [1 + 0]) = 0).
+  { cbv -[Rplus Rminus Rmult Rdiv Rinv Ropp Rle_bool Rlt_bool Req_bool Rabs IZR sqrt].
+    replace (1 / (1 / 2 / 1) * 0 + (1 + 0 - (1 + 0))) with 0 by lra. apply Rabs_R0. }
+  assert (H6 : 0 <= eff_tol (o_tol (with_opts nvPP 1))).
+  { unfold eff_tol. cbn [o_tol with_opts]. change (@nltb R NumR) with Rlt_bool. change (@n0 R NumR) with 0.
+    rewrite (Rlt_bool_true 0 1) by lra. lra. }
+  destruct (zerofpr_converged_at_0 pgf (o_psi_yhat nvPb nvprov [0] [1]) (o_grad_L nvPb nvprov) (o_grad_psi nvPb nvprov [0] [1])
+              [Some 0] [Some 1] [] (fun j it px => nv_zdir (c_apply cnt0 + j)%nat it px) false (fun c => nv_never (cadd cnt0 c)) (fun c => nv_never (cadd cnt0 c))
+              (with_opts nvPP 1) [0] [0] [1] [0] 5 ψ0 (psi_def nvPb [0] [0] [1]) 0 0 [1 + 0] wm0 [0] [0] [0] [1 + 0]
+              ltac:(cbn; lra) ltac:(cbn; lra) eq_refl H1 H2 H3 H4 H5 H6 4)
+    as (o & Hrun & O1 & O2 & O3 & O4 & O5 & O6).
+  rewrite Hrun. rewrite O1, O2, O3, O4, O5, O6. cbn [alm_status_of].
+  replace (vdiv (vsub [0] [0]) [1]) with [0] by (cbn; f_equal; lra).
+  eexists. eexists. reflexivity.
+Qed.
+
+Lemma nv_zconverged : exists co, nv_zrun = Some co /\ f_status (co_final co) = Converged /\ co_x co = [0] /\ f_y (co_final co) = [0].
+Proof.
+  destruct nv_zinner as (lg & w' & Hin).
+  unfold nv_zrun, alm_zerofpr, c_run, c_script_of.
+  change (Nat.eqb (Alm.p_max_iter nvAP) 0) with false. change (Nat.eqb (pb_m (pb_of nvPb 0)) 0) with false. cbv iota.
+  set (s0 := init_state nvAP (pb_of nvPb 0) (pf nvPb [0]) (pg nvPb [0]) 0 None [0]).
+  assert (Es : s0 = {| s_Sigma := [1]; s_err := [0]; s_err_old := [0]; s_norm_old := 0; s_eps := 1; s_y := [0]; s_fails := 0; s_iters := 0 |})
+    by (unfold s0; rcomp; reflexivity).
+  assert (Ey : c_y_in nvAP (pb_of nvPb 0) s0 = [0]) by (rewrite Es; rcomp; reflexivity).
+  set (r0 := {| ir_status := Converged; ir_eps := 0; ir_err := Some [0]; ir_y := Some [0]; ir_iters := 0; ir_oot := false |}) in *.
+  assert (Ex : f_exhausted (snd (alm_loop nvAP (pb_of nvPb 0) 0 s0 [r0])) = false).
+  { rewrite Es. cbv -[Rplus Rminus Rmult Rdiv Rinv Ropp Rle_bool Rlt_bool Req_bool Rabs IZR sqrt]. rewrite Rabs_R0. rbb. reflexivity. }
+  rewrite c_loop_S. rewrite Ey.
+  replace (s_Sigma s0) with [1] by (rewrite Es; reflexivity). replace (s_eps s0) with 1 by (rewrite Es; reflexivity).
+  replace (s_err s0) with [0] by (rewrite Es; reflexivity). rewrite Hin. rewrite Ex.
+  eexists. split; [reflexivity|]. cbn [co_final co_x c_script c_x].
+  unfold alm_run. change (Nat.eqb (Alm.p_max_iter nvAP) 0) with false. change (Nat.eqb (pb_m (pb_of nvPb 0)) 0) with false. cbv iota.
+  fold s0. rewrite Es.
+  cbv -[Rplus Rminus Rmult Rdiv Rinv Ropp Rle_bool Rlt_bool Req_bool Rabs IZR sqrt]. rewrite !Rabs_R0. rbb. repeat split.
+Qed.
